@@ -4,13 +4,13 @@ import json, os
 ROOT = os.path.dirname(os.path.dirname(os.path.abspath(__file__)))
 T = "machine-checked proof in Coq 8.16 (%s) + differential correspondence check of the executable model and the extracted specs against the Rust implementation"
 CLAIMED = {
- "C02": ("Theorems: every string Utf8Accum hands out is one well-formed scalar (Unicode Table 3-7) for every byte sequence; a well-formed character is emitted from every accumulator state, also after arbitrary garbage; every character event of the decoder is well-formed. Tie: exhaustive byte-class enumeration model vs implementation, all high-byte strings up to length 3/4 against core::str::from_utf8, resynchronisation oracle, completion echo validity.",
-         T % "invariant by induction over the byte stream"),
+ "C02": ("Theorems: every string Utf8Accum hands out is one well-formed scalar (Unicode Table 3-7) for every byte sequence; a well-formed character is emitted from every accumulator state, also after arbitrary garbage; every character event of the decoder is well-formed; the Cli keeps line and history well-formed under every call sequence and sink behaviour; tokens and classified arguments of a well-formed line are well-formed; EVERY slice handed to the sink (echo, redraw, completion, recall, prompts, errors, help, handler output) is well-formed for every call sequence and every sink behaviour when the texts supplied from outside are. Tie: exhaustive byte-class enumeration model vs implementation, all high-byte strings up to length 3/4 against core::str::from_utf8, resynchronisation oracle, completion echo validity.",
+         T % "invariant by induction over the byte stream; Hoare-style output invariant over the Cli monad"),
  "C04": ("Theorems: every stream that is a concatenation of well-formed key units segmented greedily decodes to exactly the events of the units, from any non-CSI decoder state; N terminators give N Enters. Tie: spec-generated unit lists evaluated on the implementation (direct oracle), exhaustive byte-class streams and random malformed streams model vs implementation; constants regenerated from codes.rs/input.rs each run.",
          T % "unit-boundary invariant, induction over the unit list; constants translator"),
  "C17": ("Theorems for EVERY scalar value (no enumeration): encode_utf8 gives the well-formed encoding of the right length and decode inverts it (and conversely), char_pop_front takes exactly the first scalar off, char_count / char_byte_index / common_prefix_len agree with the character-level definitions on all well-formed text, every scalar >= U+0020 (DEL aside) typed as bytes decodes to one character event. Tie: all 1.1M scalars inside the harness against Rust's char/str, boundary scalars model vs implementation vs Python codec, end-to-end sessions.",
          T % "algebraic laws / round trips, div-mod arithmetic by lia"),
- "C05": ("Theorems: every editor operation (insert of any chars, left, right, remove, clear) on a state representing an ideal editor state does not panic, returns the ideal result and represents the ideal next state, for every buffer size; lifted to all operation sequences from the empty editor; acceptance iff the UTF-8 length fits; a rejected insert changes nothing. Tie: all op sequences up to a length for buffer sizes 0..8 + random, implementation vs extracted ideal editor (direct oracle) and vs model; sessions through the Cli.",
+ "C05": ("Theorems: every editor operation (insert of any chars, left, right, remove, clear) on a state representing an ideal editor state does not panic, returns the ideal result and represents the ideal next state, for every buffer size; lifted to all operation sequences from the empty editor; acceptance iff the UTF-8 length fits; a rejected insert changes nothing; through the whole Cli, for every byte, line and cursor are those of the ideal line after the decoded event. Tie: all op sequences up to a length for buffer sizes 0..8 + random, implementation vs extracted ideal editor (direct oracle) and vs model; sessions through the Cli.",
          T % "refinement to an ideal editor, simulation relation, induction over operation lists"),
  "C07": ("Theorems: the in-place Tokens::new never writes out of range or over unread input for any byte string and, for every NUL-free line, its tokens are those of the declarative quoting rules; laws of the rules (blanks, quoted item with adjacency, bare word); round trip: tokenising the quoted rendering of ANY list of NUL-free strings returns the list (also through the in-place tokeniser). Tie: exhaustive lines over six symbols, random lines, round-trip oracle on the implementation.",
          T % "loop invariant write index <= read index, refinement to the functional tokeniser, round-trip law"),
